@@ -130,6 +130,10 @@ def cases(rng, tier, shard, nshards):
             elif r < 0.3:     # the multicomplex pattern x + i h + j h
                 hs = [[abs(h[0]), abs(h[0]), 0.0] for h in hs]
                 pattern = 'multicomplex'
+            if size >= 2 and (f in ZERO_OK or f == 'sqrt') and rng.random() < 0.25:
+                # an array that holds the number zero itself (all four components 0): f(0) is a number like any other
+                k0 = int(rng.integers(0, size))
+                xs[k0], hs[k0] = 0.0, [0.0, 0.0, 0.0]
             yield dict(kind='unary', f=f, x=xs, h=hs, size=size, pattern=pattern,
                        via='ufunc' if (f in NP_UFUNC and rng.random() < 0.5) else 'method')
         elif u < 0.6:
@@ -329,6 +333,15 @@ def run_case(case, ctx):
         g = mp_fun(f)
         r1, r2 = np.atleast_1d(res.z1), np.atleast_1d(res.z2)
         for k, (x, h) in enumerate(zip(xs, hs)):
+            if x == 0.0 and not any(h):
+                # the unperturbed origin: the value is f(0), exactly representable for every function drawn here
+                want0 = complex(g(m.mpf(0)))
+                ctx.count('asserted:exact_zero_argument')
+                if not (abs(complex(r1[k]) - want0) <= 4 * EPS * max(1.0, abs(want0)) and abs(complex(r2[k])) <= 4 * EPS):
+                    ctx.reject('differs_from_holomorphic_extension', observed=[complex(r1[k]), complex(r2[k])], expected=[want0, 0.0],
+                               function=f, base_point=[0.0], detail=dict(argument='the number zero (all components 0)'))
+                    return
+                continue
             a, b = idem(x, h)
             case['_qo'] = quotient_overflow(('fn', f, ('x',)), x)
             if not X.neighbourhood_ok(('fn', f, ('x',)), x, complex(a), complex(b)):
